@@ -60,7 +60,9 @@ def _sqrt(x):
             else Fraction(math.isqrt(x), 1)
         if r * r == x:
             return r
-        return math.sqrt(x)
+        if V.PATH[0] is None:
+            return math.sqrt(x)
+        x = Sym(V.lift(Fraction(x)))      # irrational: keep it symbolic (sqrt(3) is not 1.7320508075688772)
     f = uf("sqrt", R, R)
     t = V.to_real(x).t
     res = Sym(f(t))
@@ -1341,36 +1343,49 @@ def _fft_shape(x, s):
     return tuple(x.shape[:x.ndim - len(s)]) + s
 
 
+GHOST = {"fft": []}       # (op, result array, argument array, s) of FFT calls on the current path (reset per path)
+
+
+def _ghost_fft(op, res, arg, s):
+    GHOST["fft"].append((op, res, arg, s))
+    return res
+
+
 def _fftn(x, s=None, axes=None, **kw):
-    return _uf_array("fftn", _fft_shape(x, s), "complex")
+    return _ghost_fft("fftn", _uf_array("fftn", _fft_shape(x, s), "complex"), x, s)
+
+
+def _ifftn(x, s=None, axes=None, **kw):
+    return _ghost_fft("ifftn", _uf_array("ifftn", _fft_shape(x, s), "complex"), x, s)
 
 
 def _rfftn(x, s=None, axes=None, **kw):
     shp = _fft_shape(x, s)
-    return _uf_array("rfftn", shp[:-1] + (V.arith("+", V.arith("//", shp[-1], 2), 1),), "complex")
+    return _ghost_fft("rfftn", _uf_array("rfftn", shp[:-1] + (V.arith("+", V.arith("//", shp[-1], 2), 1),), "complex"), x, s)
 
 
 def _irfftn(x, s=None, axes=None, **kw):
     x = A.from_nested(x)
     if s is None:
-        # scipy/numpy: without `s` the last axis has length 2*(m-1)
-        shp = tuple(x.shape[:-1]) + (V.arith("*", 2, V.arith("-", x.shape[-1], 1)),)
+        # scipy.fft: without `s` the last axis has length 2*(m-1) (measured: 1 when m == 1)
+        m = x.shape[-1]
+        shp = tuple(x.shape[:-1]) + (V.ite(V.compare("==", m, 1), 1, V.arith("*", 2, V.arith("-", m, 1))),)
     else:
         s = tuple(X._unfrac(v) for v in (s.to_list() if isinstance(s, SArr) else s))
         shp = tuple(x.shape[:x.ndim - len(s)]) + s
-    return _uf_array("irfftn", shp, "real")
+    return _ghost_fft("irfftn", _uf_array("irfftn", shp, "real"), x, s)
 
 
 for _m in ("scipy.fft", "numpy.fft"):
     REG[_m + ".fftn"] = _fftn
-    REG[_m + ".ifftn"] = _fftn
+    REG[_m + ".ifftn"] = _ifftn
     REG[_m + ".rfftn"] = _rfftn
     REG[_m + ".irfftn"] = _irfftn
     REG[_m + ".fftshift"] = REG["numpy.fft.fftshift"]
     REG[_m + ".ifftshift"] = REG["numpy.fft.ifftshift"]
     REG[_m + ".fftfreq"] = REG["numpy.fft.fftfreq"]
 REG["acryo._typed_scipy.fftn"] = _fftn
-REG["acryo._typed_scipy.ifftn"] = _fftn
+REG["acryo._typed_scipy.ifftn"] = _ifftn
 REG["acryo._typed_scipy.rfftn"] = _rfftn
 REG["acryo._typed_scipy.irfftn"] = _irfftn
 
